@@ -222,11 +222,32 @@ func runC13(c *Ctx) {
 	checkAccessorAgreement(c, "pk")
 	checkKeyArgNames(c, "pk")
 	checkSetterValues(c, "pk", nil)
+	checkIterDelete(c, 6, "pk")
 
 	// ---- R4 ------------------------------------------------------------------------------------
 	c.Rule("R4", "failure isolation: the launch loop and the removal loop run each consumer on its own CacheContext created inside the loop body, committed only on success (details in C19.R1)", 4)
 	for _, spec := range []struct{ fn, op string }{{"pk.Keeper.BeginBlockLaunchConsumers", "pk.Keeper.LaunchConsumer"}, {"pk.Keeper.BeginBlockRemoveConsumers", "pk.Keeper.DeleteConsumerChain"}} {
 		checkCachedLoop(c, spec.fn, spec.op)
+	}
+
+	c.Rule("R7", "no data flows between iterations of a per-consumer loop: in the provider keeper and module, a loop-carried variable whose next value depends on the loop's consumer id is an accumulator read only after the loop; every per-consumer driver loop is analysed, including those without any carried variable", 4)
+	var loopFns []*ssa.Function
+	for _, f := range c.P.ModuleFuncs("pk", "provider") {
+		if f.Parent() == nil && !isTestFile(c.P, f) {
+			loopFns = append(loopFns, f)
+		}
+	}
+	checkCarriedState(c, loopFns, 3)
+	for _, spec := range []string{"pk.Keeper.AllocateTokens", "pk.Keeper.QueueVSCPackets", "pk.Keeper.SendVSCPackets", "pk.Keeper.BeginBlockLaunchConsumers", "pk.Keeper.BeginBlockRemoveConsumers", "pk.Keeper.BeginBlockUpdateInfractionParameters", "pk.Keeper.EndBlockCIS"} {
+		if f := c.Fn(spec); f != nil {
+			bad := 0
+			for _, cf := range carriedState(f) {
+				if cf.Use != nil {
+					bad++
+				}
+			}
+			c.Check(bad == 0, fk(f, "iterations-independent"), f, "per-consumer driver loop: no carried variable depending on a consumer id is consumed inside the loop")
+		}
 	}
 
 	// ---- R5 ------------------------------------------------------------------------------------
